@@ -48,6 +48,16 @@ chk("C12", "exhaustive enumeration of token strings x positions x permutations o
     "Every concatenation of <=3/4 pieces over a 24-piece token/near-miss alphabet at each of 19 positions (11 in scope, 8 out of scope) of a command step, for 5 permutations (token-shaped values, dotted/dashed/dot-leading names): the real InterpolateMatrixPermutation must equal a hand-written single-pass scanner mapped over the in-scope strings of the step's JSON; unknown dimension in scope => error, out-of-scope strings unchanged, empty permutation changes nothing; the library's map loops are explored in every order within the deviation bound.",
     "Cache strings are don't-care; plugin sources are ./paths.", "DESIGN.md §3 C12")
 
+chk("C07", "stateless choice-DFS (deviation-bounded) over an anchor/alias/merge document grammar on the real decoder vs. two-phase reference resolver; per-case journal for fatal crashes, watchdog for hangs",
+    "Documents are programs of choices over anchors (redefinable names), aliases as values and keys, merges in every slot and form, nested to depth 2-3, with backward / forward / enclosing alias targets (self and mutual cycles through values, sequences, keys and merges); all documents within 4/5 deviations of a default that already anchors, aliases and merges, plus 19 hand-written deep shapes, are decoded by ordered.DecodeYAML and yaml.Unmarshal into MapSA and compared with a two-phase reference on yaml.v3's node graph: content, order, independent copies, value cycle => error, merge cycle tolerated, no panic; a worker killed by stack overflow or stuck for two minutes is reported with the journalled document.",
+    "yaml.v3's parser trusted for alias-name resolution; bounded nesting and deviation count.", "DESIGN.md §3 C07")
+chk("C08", "exhaustive enumeration of key sequences x order-preserving positions x merge index on the real parser/marshallers; order read back from JSON token stream / YAML nodes",
+    "All 1957 permutations of all subsets of a 6-key alphabet (keys needing quotes, numeric/boolean look-alikes, the empty key) and all rotations/reversals of unsorted 10- and 17-key lists at each of 15 order-preserving positions, JSON and YAML input, with a `<<` merge at every index (source overlapping earlier and later explicit keys): output key order must equal input order with merged keys where the merge stood; unquoted numeric/bool keys canonicalised in place; programmatic maps with tombstones and 3-deep nesting round-trip through JSON and YAML to an ordered.Equal map.",
+    "Legacy plugin mappings are covered by C03 because sources are canonicalised; key '<<' not generated on the YAML output leg.", "DESIGN.md §3 C08")
+chk("C13", "exhaustive enumeration of all token strings up to a length bound + type-error injection at every node of generated documents, on the real Parse; per-case journal for fatal crashes, watchdog for hangs",
+    "(i) every concatenation of <=5/6 tokens over a 22-token YAML/pipeline alphabet (5.4M / 118M strings); (ii) every generated document (<=1/2 deviations) and two base documents with each node replaced by each of 12 values, plus the un-injected documents: Parse must return without panic / fatal crash / hang, with a hard error or a pipeline (+warning); if usable: non-nil steps, one non-nil step per input entry (independent node-graph walk), recursively in groups, unknown steps verbatim, warning leaves >= unknown steps, JSON and YAML marshalling succeed.",
+    "'Any byte sequence' only within the token alphabet / injection grammar; .inf/.nan JSON marshalling is a listed known finding.", "DESIGN.md §3 C13")
+
 ALL = [f"C{i:02d}" for i in range(1,20)]
 NA_REASON = {}
 man = dict(version=1, setup_cmd="./setup.sh",
